@@ -312,8 +312,8 @@ def anchoring_sweep(rep, rng, n):
             warnings.simplefilter("ignore")
             out = pa.Check.str_matches(pat)(pd.Series(strings, dtype=object))
             pd_fail = sorted(int(i) for i in out.failure_cases.index.tolist()) if out.failure_cases is not None else []
-            res = pap.Check.str_matches(pat)(pl.LazyFrame({"c": strings}).with_row_index("pos"), "c")
-            pl_fail = sorted(res.failure_cases.collect()["pos"].to_list())
+            res = pap.Check.str_matches(pat)(pl.LazyFrame({"c": strings}), "c")
+            pl_fail = [i for i, o in enumerate(res.check_output.collect()["check_output"].to_list()) if o is False]
         rep.evaluations += 1
         rep.count("anchoring:str_matches-alternation")
         if pd_fail != pl_fail:
